@@ -153,6 +153,11 @@ def renamer(pairs: dict[str, str]) -> Callable[[str], str]:
     return rn
 
 
+def nm(f: FuncInfo) -> str:
+    """Readable name for messages: qualified name without the module path."""
+    return f.qualname[len(f.module.name) + 1:] if f.qualname.startswith(f.module.name + '.') else f.qualname
+
+
 def _params(f: FuncInfo, n: int) -> list[str]:
     ps = [a.arg for a in f.params()]
     if len(ps) < n:
@@ -398,7 +403,7 @@ def _resolve_roles(ctx: Ctx, rule: str, f: FuncInfo, paths: Iterable[absint.Path
         a0, a1, a2 = e.kw.get('#0') or e.kw.get('d'), e.kw.get('#1') or e.kw.get('field'), e.kw.get('#2') or e.kw.get('default')
         role = {f'{c}.old': 'OLD', f'{c}.new': 'NEW', f'{c}.body': 'CUR'}.get(a0.key if a0 is not None else '')
         ok = role is not None and a1 is not None and a1.key == f'{h}.field' and a2 is not None and a2.kind == 'sym'
-        ctx.ob(rule, f'{f.short}: the examined value is resolved from the cause\'s old/new/current state at the handler\'s field, with a '
+        ctx.ob(rule, f'{nm(f)}: the examined value is resolved from the cause\'s old/new/current state at the handler\'s field, with a '
                'sentinel default that distinguishes "absent" from every real value', ok, loc=f.loc(e.node),
                construct=construct(f, f'config:resolve({role or "?"})'), detail=e.key[:200])
         if ok:
@@ -418,9 +423,9 @@ def check_field_values(ctx: Ctx, rule: str) -> None:
     ctx.analysed(f)
     h, c = _params(f, 2)[:2]
     f2, lists, npulled = exists_normal_form(f)
-    ctx.require_sites(rule, f'{f.short}: value criteria quantified over the value list (any(... for value in values))', npulled, 1, f.loc())
+    ctx.require_sites(rule, f'{nm(f)}: value criteria quantified over the value list (any(... for value in values))', npulled, 1, f.loc())
     if len(lists) != 1:
-        ctx.ob(rule, f'{f.short}: all value criteria range over one and the same value list', False, loc=f.loc(),
+        ctx.ob(rule, f'{nm(f)}: all value criteria range over one and the same value list', False, loc=f.loc(),
                construct=construct(f, 'formula:one-value-list'), detail=f'lists: {sorted(lists)}')
         return
     values_name = next(iter(lists))
@@ -471,14 +476,14 @@ def check_field_values(ctx: Ctx, rule: str) -> None:
             bad_upd.append((p, rs))
         if 'OLD' in rs and True not in update_like:
             bad_d12.append((p, rs))
-    ctx.require_sites(rule, f'{f.short}: paths that build the value list', n_lists, 2, f.loc())
-    ctx.ob(rule, f'{f.short}: for non-changing causes (event-watching, daemons, timers, indexing, webhooks) the value list is the current state only',
+    ctx.require_sites(rule, f'{nm(f)}: paths that build the value list', n_lists, 2, f.loc())
+    ctx.ob(rule, f'{nm(f)}: for non-changing causes (event-watching, daemons, timers, indexing, webhooks) the value list is the current state only',
            not bad_cur, loc=f.loc(), construct=construct(f, 'formula:value-list-current-state'), detail='; '.join(str(r) for _, r in bad_cur[:2]))
-    ctx.ob(rule, f'{f.short}: for changing causes the value list contains the new (current) state and nothing but new/old', not bad_new, loc=f.loc(),
+    ctx.ob(rule, f'{nm(f)}: for changing causes the value list contains the new (current) state and nothing but new/old', not bad_new, loc=f.loc(),
            construct=construct(f, 'formula:value-list-new-state'), detail='; '.join(str(r) for _, r in bad_new[:2]))
-    ctx.ob(rule, f'{f.short}: for update handlers (on.update/on.field) the value list contains the old state too ("either the old or the new value")',
+    ctx.ob(rule, f'{nm(f)}: for update handlers (on.update/on.field) the value list contains the old state too ("either the old or the new value")',
            not bad_upd, loc=f.loc(), construct=construct(f, 'formula:value-list-old-for-updates'), detail='; '.join(str(r) for _, r in bad_upd[:2]))
-    ctx.ob(rule, f'{f.short}: the old state is in the value list only for update handlers (field_needs_change / reason UPDATE); creation, deletion '
+    ctx.ob(rule, f'{nm(f)}: the old state is in the value list only for update handlers (field_needs_change / reason UPDATE); creation, deletion '
            'and resuming handlers check "the resource in its current ---and only--- state"', not bad_d12, loc=f.loc(),
            construct=construct(f, D12_ROLE),
            detail=f'value list {bad_d12[0][1]} for every changing cause, no test of the handler kind on the path' if bad_d12 else '')
@@ -491,7 +496,7 @@ def check_field_changes(ctx: Ctx, rule: str) -> None:
     h, c = _params(f, 2)[:2]
     it, paths = run_paths(repo, f, absint.Config(effect=_resolve_effect(repo)))
     roles, sentinel = _resolve_roles(ctx, rule, f, paths, h, c)
-    ctx.require_sites(rule, f'{f.short}: old and new value of the field', len(set(roles.values()) & {'OLD', 'NEW'}), 2, f.loc())
+    ctx.require_sites(rule, f'{nm(f)}: old and new value of the field', len(set(roles.values()) & {'OLD', 'NEW'}), 2, f.loc())
     rn = renamer({**roles, **({sentinel: 'SENTINEL'} if sentinel else {})})
     results: list[tuple[absint.Path, Any]] = []
     for p in paths:
@@ -566,14 +571,14 @@ def check_r15_2(ctx: Ctx) -> None:
                 v = v.args[0]
             v = origin(g, v) if v is not None else v
             ok = isinstance(v, ast.Call) and is_call_to(repo, g, v, f'{REG}._deduplicated')
-            ctx.ob(rule, f'{g.short}: the selected handlers are returned through _deduplicated (one invocation per function and id)', ok,
+            ctx.ob(rule, f'{nm(g)}: the selected handlers are returned through _deduplicated (one invocation per function and id)', ok,
                    loc=g.loc(r), construct=construct(g, 'confine:return via _deduplicated'), detail=norm(r.value))
-        ctx.require_sites(rule, f'{g.short}: return statements', len(rets), 1, g.loc())
+        ctx.require_sites(rule, f'{nm(g)}: return statements', len(rets), 1, g.loc())
     # nobody iterates the raw selection
     raw = [(g, x) for g in repo.all_functions() for x in calls_in(g.node) if method_call(x, 'iter_handlers') is not None]
     for g, x in raw:
         ok = g in getters
-        ctx.ob(rule, f'iter_handlers (the not yet deduplicated selection) is consumed only by the deduplicating getters (call in {g.short})', ok,
+        ctx.ob(rule, f'iter_handlers (the not yet deduplicated selection) is consumed only by the deduplicating getters (call in {nm(g)})', ok,
                loc=g.loc(x), construct=f'{g.qualname}:confine:iter_handlers')
     ctx.require_sites(rule, 'calls of iter_handlers', len(raw), 2)
     users = [(g, x) for g in repo.all_functions() for x in calls_in(g.node)
@@ -637,9 +642,9 @@ PATCH_RECEIVERS = {
 }
 
 
-def _is_patch_expr(e: ast.AST) -> bool:
-    d = dotted(e)
-    return d is not None and (d == 'patch' or d.endswith('.patch'))
+def _is_patch_expr(repo, g: FuncInfo, e: ast.AST) -> bool:
+    """An expression holding an object patch: typed `patches.Patch` (parameter/field annotations)."""
+    return isinstance(e, (ast.Name, ast.Attribute)) and repo.type_of(g, e) == 'kopf._cogs.structs.patches.Patch'
 
 
 def check_r15_3(ctx: Ctx) -> None:
@@ -649,9 +654,9 @@ def check_r15_3(ctx: Ctx) -> None:
     n_sites = 0
     for g in repo.functions_in(PROC):
         for x in calls_in(g.node):
-            passes = [a for a in list(x.args) + [k.value for k in x.keywords] if _is_patch_expr(a)]
+            passes = [a for a in list(x.args) + [k.value for k in x.keywords] if _is_patch_expr(repo, g, a)]
             recv = x.func.value if isinstance(x.func, ast.Attribute) else None
-            mutates = recv is not None and any(_is_patch_expr(n) for n in ast.walk(recv))
+            mutates = recv is not None and any(_is_patch_expr(repo, g, n) for n in ast.walk(recv))
             if not passes and not mutates:
                 continue
             n_sites += 1
@@ -665,7 +670,8 @@ def check_r15_3(ctx: Ctx) -> None:
                 fin = isinstance(part, ast.Call) and (repo.resolve(g.module, part.func) or '') == 'functools.partial' and part.args \
                     and (repo.resolve(g.module, part.args[0]) or '') in ('kopf._cogs.structs.finalizers.block_deletion',
                                                                          'kopf._cogs.structs.finalizers.allow_deletion')
-                ok = g.name == 'process_resource_causes' and method_call(x, 'append') is not None and dotted(recv) == 'patch.fns' and bool(fin)
+                ok = g.name == 'process_resource_causes' and method_call(x, 'append') is not None and isinstance(recv, ast.Attribute) \
+                    and recv.attr == 'fns' and _is_patch_expr(repo, g, recv.value) and bool(fin)
                 why = 'only finalizer functions are appended to the patch outside the handlers'
             else:
                 ok = bool(names & allowed)
@@ -688,7 +694,8 @@ def check_r15_3(ctx: Ctx) -> None:
             return 'req:changing'
         if any(n.endswith('registries.SpawningRegistry.requires_finalizer') for n in names):
             return 'req:spawning'
-        if method_call(call, 'append') is not None and dotted(method_call(call, 'append')) == 'patch.fns':
+        r = method_call(call, 'append')
+        if isinstance(r, ast.Attribute) and r.attr == 'fns' and _is_patch_expr(repo, f, r.value):
             return 'append'
         return None
     paths = absint.analyse(repo, f, absint.Config(effect=eff))
@@ -768,7 +775,10 @@ def check_r15_3(ctx: Ctx) -> None:
     seen_stmts = set()
     touches = [n for n in touches if not (id(n.stmt) in seen_stmts or seen_stmts.add(id(n.stmt)))]
     ctx.require_sites(rule, 'application.apply: progress_storage.touch sites', len(touches), 2, a.loc())
-    patch_param = 'patch'
+    typed = [p.arg for p in a.params() if repo.ann_class(a.module, p.annotation) == 'kopf._cogs.structs.patches.Patch']
+    if len(typed) != 1:
+        raise AnalysisError(f'{a.loc()}: expected exactly one Patch-typed parameter of apply, found {typed}')
+    patch_param = typed[0]
     for n in touches:
         call = [x for x in calls_in(n.stmt) if method_call(x, 'touch') is not None][0]
         parg = kwarg(call, 'patch')
@@ -812,7 +822,7 @@ def check_r15_4(ctx: Ctx) -> None:
             if owner.qualname in FNC_TABLE:
                 want = FNC_TABLE[owner.qualname]
                 ok = isinstance(v, ast.Constant) and v.value is want
-                ctx.ob(rule, f'{owner.short} registers its handler with field_needs_change={want} ("the field actually changed" applies to '
+                ctx.ob(rule, f'{nm(owner)} registers its handler with field_needs_change={want} ("the field actually changed" applies to '
                        'on.update/on.field only)', ok, loc=g.loc(x), construct=f'{owner.qualname}:config:field_needs_change', detail=f'found {norm(v)}')
             elif owner.qualname == 'kopf.on.subhandler':
                 par = origin(g, v.value) if isinstance(v, ast.Attribute) and v.attr == 'field_needs_change' else None
@@ -822,7 +832,7 @@ def check_r15_4(ctx: Ctx) -> None:
             else:
                 fld = kws.get('field')
                 ok = isinstance(fld, ast.Constant) and fld.value is None
-                ctx.ob(rule, f'{owner.short}: a changing handler built outside the decorators has no field criterion (so field_needs_change is moot)',
+                ctx.ob(rule, f'{nm(owner)}: a changing handler built outside the decorators has no field criterion (so field_needs_change is moot)',
                        ok, loc=g.loc(x), construct=f'{owner.qualname}:config:field=None', detail=f'field={norm(fld)}, field_needs_change={norm(v)}')
     ctx.count('decorator_sites', n)
     ctx.require_sites(rule, 'constructions of ChangingHandler (5 decorators, subhandler, subhandling.execute x2)', n, 8)
@@ -963,15 +973,15 @@ def check_r15_5(ctx: Ctx) -> None:
         ctx.analysed(g)
         role = f'{g.qualname}:flow:{norm(x.func, 60)}'
         if not x.args:
-            ctx.ob(rule, f'{g.short}: the per-value callback `{norm(x.func, 60)}` gets the checked value as its one positional argument', False,
+            ctx.ob(rule, f'{nm(g)}: the per-value callback `{norm(x.func, 60)}` gets the checked value as its one positional argument', False,
                    loc=g.loc(x), construct=role)
             continue
         vals = SentinelFlow(repo, g).values(x.args[0])
         images[role] = vals
         leaked = sorted(v for v in vals if v.startswith('SENTINEL:'))
-        ctx.ob(rule, f'{g.short}: the private sentinel never reaches the user callback `{norm(x.func, 60)}` as the value', not leaked, loc=g.loc(x),
+        ctx.ob(rule, f'{nm(g)}: the private sentinel never reaches the user callback `{norm(x.func, 60)}` as the value', not leaked, loc=g.loc(x),
                construct=role, detail=f'argument `{norm(x.args[0])}` may evaluate to {leaked}' if leaked else '')
-        ctx.ob(rule, f'{g.short}: for an absent label/annotation/field the callback `{norm(x.func, 60)}` receives None, as documented '
+        ctx.ob(rule, f'{nm(g)}: for an absent label/annotation/field the callback `{norm(x.func, 60)}` receives None, as documented '
                '("The passed value will be None if the value is absent") and as its sibling call sites do', NONE in vals and not leaked,
                loc=g.loc(x), construct=role + ':absent->None', detail=f'argument `{norm(x.args[0])}` may evaluate to {sorted(vals)}')
 
